@@ -456,6 +456,7 @@ def run_family(ctx, prop):
     arcs = g.arcs(ctx)
     evs = build_c04(g, cases, arcs, quick, rnd) if prop == "C04" else build_c05(g, cases, arcs, quick, rnd)
     ctx.evaluations = g.calls
+    ctx.extra["exact_geodesic_not_applicable_lines_skipped"] = g.not_applicable
     traces = [{"ev": [strip(e)]} for e in evs]
     fails, _ = tracecheck.validate("Trace_Geodesic", "Trace_Geodesic.cfg", traces, ctx, "Trace_Geodesic", min_chunk=150, timeout=3000,
                                    all_fails=True)
@@ -541,10 +542,14 @@ def run(ctx):
                 "pole where the line is <= 20 000 km, equatorial lines of whole degrees, on 4 shipped + 2 random ellipsoids; relational "
                 "laws (flow, reversal, reflection, mirror, longitude shift, zero distance, angle classes) on samples in every case of the "
                 "TLC-enumerated skeleton latitude band x azimuth class (8 cardinal/inter-cardinal + 8 octants) x distance decade "
-                "(1 m..2e7 m) x ellipsoid; distinct = distinct events; the repository tests run ~130 Australian lines")
-    ctx.assumptions += ["NOT decided: the 1 mm accuracy of an OBLIQUE line against the exact geodesic (needs the geodesic integrals): "
-                        "there flow / reversal / reflection / mirror laws are necessary conditions; a series error that scales all arcs of "
-                        "one geodesic consistently is caught on meridians only",
+                "(1 m..2e7 m) x ellipsoid; exact-geodesic end point (1 mm) and reverse azimuth (1e-8 deg) on oblique lines of the same "
+                "skeleton (DGE); distinct = distinct events; the repository tests run ~130 Australian lines")
+    ctx.assumptions += ["oblique lines: DGE events compare the returned end point and reverse azimuth with the EXACT geodesic solved inside the "
+                        "specification (GeodesicOracle: Bessel/Helmert integrals, Romberg quadrature, one Newton step from the returned point; "
+                        "validated against 40-digit quadrature in GeodesicOracleTest, error below 1e-8 m) - a quarter of the skeleton cases in "
+                        "quick, every case in thorough; not applicable when cos(alpha0) < 1e-3 (within 0.06 deg of the equator's direction; "
+                        "the equator itself is the DEQ closed form); leaving a pole the azimuth is read in the limit along the meridian of lon1",
+                        "the four shipped ellipsoids are judged on their PUBLISHED constants (spec/Ellipsoids.tla)",
                         "metric separations use lower bounds of the metres per degree (never a false alarm)"]
 
 
